@@ -7,8 +7,12 @@ cd /verif
 if [ -n "$(git -C /repo status --porcelain --untracked-files=no)" ]; then echo "run_mutant: /repo has uncommitted changes, refusing"; exit 2; fi
 git -C /repo apply "$D/patch.diff" || { echo "run_mutant: patch does not apply"; exit 2; }
 trap 'git -C /repo checkout -- . ; echo "run_mutant: /repo restored"' EXIT INT TERM
+# The evidence a check writes while the seeded change is applied describes the changed tree, not /repo:
+# it is moved next to the log and the committed evidence file is put back.
 for id in "$@"; do
   echo "=== $id with $(basename $D)"
   ./check "$id" --tier quick > "work/mutant_$(basename $D)_$id.log" 2>&1
   echo "rc=$? $(grep -E '^(VIOLATION|KNOWN-FINDING|C[0-9]+ tier)' work/mutant_$(basename $D)_$id.log | cut -c1-220 | tr '\n' '|')"
+  [ -f "evidence/$id.json" ] && mv "evidence/$id.json" "work/mutant_$(basename $D)_$id.evidence.json"
+  git checkout -q -- "evidence/$id.json" 2>/dev/null || true
 done
